@@ -1223,6 +1223,17 @@ impl AddAssign<TimeDelta> for NaiveTime {
     }
 }
 
+/// Reduces the whole seconds of a `core::time::Duration` modulo one day for the wrapping
+/// `NaiveTime` arithmetic.
+///
+/// Durations of a day or longer stay in `86_400..172_800`: a whole number of days must not turn
+/// into zero seconds, because a `NaiveTime` that is a leap second is left by any duration of a
+/// second or more and only a shorter one may stay within it.
+const fn wrapping_secs(secs: u64) -> i64 {
+    const DAY: u64 = 24 * 60 * 60;
+    (if secs < DAY { secs } else { DAY + secs % DAY }) as i64
+}
+
 /// Add `std::time::Duration` to `NaiveTime`.
 ///
 /// This wraps around and never overflows or underflows.
@@ -1232,11 +1243,9 @@ impl Add<Duration> for NaiveTime {
 
     #[inline]
     fn add(self, rhs: Duration) -> NaiveTime {
-        // We don't care about values beyond `24 * 60 * 60`, so we can take a modulus and avoid
-        // overflow during the conversion to `TimeDelta`.
-        // But we limit to double that just in case `self` is a leap-second.
-        let secs = rhs.as_secs() % (2 * 24 * 60 * 60);
-        let d = TimeDelta::new(secs as i64, rhs.subsec_nanos()).unwrap();
+        // We don't care about values beyond `24 * 60 * 60`, so we can reduce modulo a day and
+        // avoid overflow during the conversion to `TimeDelta`.
+        let d = TimeDelta::new(wrapping_secs(rhs.as_secs()), rhs.subsec_nanos()).unwrap();
         self.overflowing_add_signed(d).0
     }
 }
@@ -1354,11 +1363,9 @@ impl Sub<Duration> for NaiveTime {
 
     #[inline]
     fn sub(self, rhs: Duration) -> NaiveTime {
-        // We don't care about values beyond `24 * 60 * 60`, so we can take a modulus and avoid
-        // overflow during the conversion to `TimeDelta`.
-        // But we limit to double that just in case `self` is a leap-second.
-        let secs = rhs.as_secs() % (2 * 24 * 60 * 60);
-        let d = TimeDelta::new(secs as i64, rhs.subsec_nanos()).unwrap();
+        // We don't care about values beyond `24 * 60 * 60`, so we can reduce modulo a day and
+        // avoid overflow during the conversion to `TimeDelta`.
+        let d = TimeDelta::new(wrapping_secs(rhs.as_secs()), rhs.subsec_nanos()).unwrap();
         self.overflowing_sub_signed(d).0
     }
 }
